@@ -403,7 +403,9 @@ PROPS["C17"] = {
              "ValidateData(yaml), ValidateFile(.json), ValidateFile(.yaml), ValidateReader(json) and - when the document decodes "
              "losslessly into specs.Spec - Validate(spec) / ValidateType must all equal the model's verdict, for the builtin schema and for "
              "an externally loaded copy of the shipped files; for malformed annotations only JSON-vs-YAML equality per entry point; the "
-             "none, NOP and nil schemas must accept every object document through every entry point; sentinels: builtin rejects {} and "
+             "none, NOP and nil schemas must accept every object document through every entry point; the package-level functions "
+             "(ValidateData, ValidateFile, ValidateReader, ReadAndValidate, Get()) are run after schema.Set of builtin / nil / external / "
+             "none / nil in a rotating order and must give the verdict of the active schema (a previous choice must not leak); sentinels: builtin rejects {} and "
              "'devices: 3'. large unit: documents of 0.5 MiB, 1 MiB -/+ 4 KiB (thorough: 2.5 and 6 MiB), as many devices or one long string, "
              "valid / invalid in the last device / invalid root member, through the same entry points. Non-trivial iff the document is invalid by exactly one mutation, or has an integer beyond 2^53 or a number outside float64, or is an "
              "unmutated valid document; distinct = distinct document trees."),
@@ -417,7 +419,7 @@ PROPS["C17"] = {
         "note": "trusted: model/draft07.go (draft-07 semantics), cross-validated in every run against python jsonschema Draft7Validator (unit model-crosscheck; skipped and labelled if python3-vt is missing)",
         "technique": "property-based testing: differential against a reference draft-07 evaluator; JSON/YAML metamorphic equality; entry-point differential",
     },
-    "health": {"quick": {"model-valid": 2000, "model-invalid": 5000, "annotations-malformed": 500, "integer-beyond-2^53": 1000, "number-outside-float64": 300, "in-memory-spec": 1000, "yaml-encodable": 10000}},
+    "health": {"quick": {"model-valid": 2000, "model-invalid": 5000, "annotations-malformed": 500, "integer-beyond-2^53": 1000, "number-outside-float64": 300, "active-schema-switched": 5000, "in-memory-spec": 1000, "yaml-encodable": 10000}},
     "units": [
         {"name": "regress", "mode": "plain", "run": "TestC17Regress"},
         {"name": "rapid", "mode": "rapid", "run": "TestC17Rapid", "checks": {"quick": 24000, "thorough": 480000}},
